@@ -344,9 +344,12 @@ impl ActorCell {
                 // unregistry from the PID registry
                 crate::registry::pid_registry::unregister_pid(self.get_id());
             }
-            // If it's enrolled in the registry, remove it
-            if let Some(name) = self.get_name() {
-                crate::registry::unregister(name);
+            // If it's enrolled in the registry, remove it. Remote actors never
+            // enroll, so they must not release a name a local actor may hold.
+            if self.get_id().is_local() {
+                if let Some(name) = self.get_name() {
+                    crate::registry::unregister(name);
+                }
             }
             // Leave all + stop monitoring pg groups (if any)
             crate::pg::demonitor_all(self.get_id());
